@@ -85,7 +85,7 @@ func (g *Gen) compName(key string) string {
 	return sanitize(strings.NewReplacer("|", "_", " ", "", "(", "", ")", "", ",", "_").Replace(key))
 }
 
-func (g *Gen) freshComp(key string, tag string) Term {
+func (g *Gen) freshComp(key string, tag string, top Term) Term {
 	srt, ok := g.u.compSort[key]
 	if !ok {
 		panic(fmt.Sprintf("component %s has no registered sort", key))
@@ -93,14 +93,14 @@ func (g *Gen) freshComp(key string, tag string) Term {
 	g.compN++
 	name := fmt.Sprintf("%s!%s%d", g.compName(key), tag, g.compN)
 	g.declare(name, srt)
-	g.compWF(key, name)
+	g.compWF(key, name, top)
 	return name
 }
 
 // compWF asserts that every value held in a freshly introduced component
 // version is well-formed for its Go type (all stores keep this invariant:
 // arithmetic wraps, havocked values get range facts).
-func (g *Gen) compWF(key string, name Term) {
+func (g *Gen) compWF(key string, name Term, top Term) {
 	t := g.u.compElem[key]
 	if t == nil {
 		return
@@ -114,14 +114,14 @@ func (g *Gen) compWF(key string, name Term) {
 		sel = "(select (select " + name + " r!w) i!w)"
 		binder = "((r!w Int) (i!w Int))"
 	case 'G': // Glob|
-		if f := g.u.rangeFact(name, t, ""); f != "" {
+		if f := g.u.rangeFact(name, t, top); f != "" {
 			g.assert(f)
 		}
 		return
 	default:
 		return
 	}
-	if f := g.u.rangeFact(sel, t, ""); f != "" {
+	if f := g.u.rangeFact(sel, t, top); f != "" {
 		g.assert(fmt.Sprintf("(forall %s (! %s :pattern (%s)))", binder, f, sel))
 	}
 }
@@ -141,7 +141,9 @@ func (g *Gen) read(s *State, key string) Term {
 		name := g.compName(key) + "!0"
 		if !g.declared[name] {
 			g.declare(name, srt)
-			g.compWF(key, name)
+			if key != TopKey {
+				g.compWF(key, name, g.read(s, TopKey))
+			}
 		}
 		t = name
 	case stUpdate:
@@ -155,19 +157,19 @@ func (g *Gen) read(s *State, key string) Term {
 			t = g.read(s.parent, key)
 		} else if key == TopKey {
 			old := g.read(s.parent, key)
-			t = g.freshComp(key, "h")
+			t = g.freshComp(key, "h", "")
 			g.assert(fmt.Sprintf("(<= %s %s)", old, t))
 		} else {
-			t = g.freshComp(key, "h")
+			t = g.freshComp(key, "h", g.read(s, TopKey))
 		}
 	case stHavocSet:
 		if s.set[key] && !g.immutableKey(key) {
 			if key == TopKey {
 				old := g.read(s.parent, key)
-				t = g.freshComp(key, "h")
+				t = g.freshComp(key, "h", "")
 				g.assert(fmt.Sprintf("(<= %s %s)", old, t))
 			} else {
-				t = g.freshComp(key, "h")
+				t = g.freshComp(key, "h", g.read(s, TopKey))
 			}
 		} else {
 			t = g.read(s.parent, key)
@@ -184,7 +186,11 @@ func (g *Gen) read(s *State, key string) Term {
 		if same {
 			t = vals[0]
 		} else {
-			t = g.freshComp(key, "j")
+			jt := ""
+			if key != TopKey {
+				jt = g.read(s, TopKey)
+			}
+			t = g.freshComp(key, "j", jt)
 			for i := range s.preds {
 				g.assert(fmt.Sprintf("(=> %s (= %s %s))", s.conds[i], t, vals[i]))
 			}
